@@ -6,6 +6,7 @@
 -/
 import Anonymongo.Props.Src.Scalar
 import Anonymongo.Props.Src.Helpers
+import Anonymongo.Props.Src.Hash
 namespace Anonymongo.Src
 open Anonymongo Anonymongo.Go
 
@@ -142,7 +143,7 @@ theorem A_step (g : Globals) (T : Tables) (rfn S : Bool) (fuel : Nat) (hph : T.e
         · subst hc
           cases hl : lookup ('$' :: r) T.core <;> cases rfn <;>
             simp [isNull, asStr, dollar_head, goAnd, strByte0Is, tblGet, hl, setIdx_mid, Ctx.AElem, Ctx.aElemScalar, dollarPrefixed,
-              Ctx.dollarString, Ctx.H, absCfg]
+              Ctx.dollarString, Ctx.H, absCfg, HashName_eq]
         · have hb2 : (ch == '$') = false := by simpa using hc
           simp [isNull, asStr, dollar_head, goAnd, goOr, strByte0Is, hb2, reMatchesAnyKeyInPath_eq,
             redactScalarValue_eq g T fuel [pk] _ S _ h1 h2 hph, setIdx_mid, Ctx.AElem, Ctx.aElemScalar, dollarPrefixed_cons, Ctx.scalar]
@@ -206,8 +207,9 @@ theorem Q_step (g : Globals) (T : Tables) (rfn S : Bool) (fuel : Nat) (hph : T.e
                         match tblGet T.core str with
                         | (_, ok_3) =>
                           have jp3 := fun (_ : Unit) (isOp_2 : Bool) =>
-                            if (rfn && !isOp_2) = true then
-                              have newObj := setKV redactedKey (J.str (hashName g.redactedString str)) newObj;
+                            if (rfn && !isOp_2) = true then do
+                              let __do_lift ← HashName g T str
+                              have newObj : List (Str × J) := setKV redactedKey (J.str __do_lift) newObj
                               pure (ForInStep.yield newObj)
                             else
                               have newObj := setKV redactedKey v newObj;
@@ -225,7 +227,10 @@ theorem Q_step (g : Globals) (T : Tables) (rfn S : Bool) (fuel : Nat) (hph : T.e
                   have newObj := setKV redactedKey J.null newObj;
                   pure (ForInStep.yield newObj);
             if rfn = true then
-              if (!isOp) = true then jp2 () (hashName g.redactedString k_1) else jp2 () k_1
+              if (!isOp) = true then do
+                let __do_lift ← HashName g T k_1
+                jp2 () __do_lift
+              else jp2 () k_1
             else jp2 () k_1;
           jp1 () (pairOf co).2 (pairOf co).1) : Option (ForInStep (List (Str × J)))) =
         some (ForInStep.yield (setKV ((Ctx.mk T (absCfg g) rfn).qKey co k) ((Ctx.mk T (absCfg g) rfn).QVal S co k (kp ++ [k]) v) acc)) := by
@@ -237,6 +242,7 @@ theorem Q_step (g : Globals) (T : Tables) (rfn S : Bool) (fuel : Nat) (hph : T.e
         | none => rfl
         | some m => cases m <;> rfl
       rw [hkey]
+      simp only [HashName_eq, bind, Option.bind]
       cases hi : (pairOf co).2 <;>
         simp only [Bool.false_eq_true, if_false, if_true, Bool.not_false, Bool.not_true, Bool.and_true, Bool.and_false, ite_self] <;>
       cases v with
